@@ -17,6 +17,8 @@ LEVEL = "other"
 def run(chk):
     cfgs = ["base", "z"]
     chk.configs = cfgs
+    chk.rule("PRECISION.forwarded", "every function with a precision parameter uses it for more than validation (pow(10, .), a ClipperD constructor, another "
+             "function's precision) and constructs no ClipperD with the default precision: integer scaling / translation of decimal data is honoured")
     chk.rule("WRAP.no-passthrough", "Intersect / Union / Difference / Xor / BooleanOp never hand one of their path parameters back as the result (unless known "
              "empty): the result is what the sweep produced under the fill rule")
     chk.rule("FLOAT.double-only", "no float-typed expression and no single-precision math function in any library function")
@@ -48,6 +50,8 @@ def run(chk):
         e3.axis_mirror_rule(db, chk, cfg)
         e3.no_single_precision(db, chk, cfg)
         e3.closing_vertex_rule(db, chk, cfg)
+        from ..engines import e8_scale as _e8p
+        _e8p.rule_precision_forwarded(db, chk, cfg)
         from ..engines import e8_scale as _e8
         _e8.rule_no_passthrough(db, chk, cfg)
         from ..engines import e14_poly as e14
